@@ -6,11 +6,11 @@
    BEFORE `call` and is not part of these functions; so `args[i]` on a short vector is
    an explicit Panic here, as it is in Rust when `call` is invoked directly).
 
-   Every partial Rust operation on these paths is an explicit Panic: args[i]; the i64
-   subtraction in range (debug: overflow panic; release: wraps, and the subsequent collect()
-   panics with "capacity overflow" — both profiles abort exactly when the mathematical
-   difference leaves i64).  String functions len/head/tail/slice are byte-based today and are
-   transcribed as they are (str::len, str::get(a..b) with its char-boundary test). *)
+   Every partial Rust operation on these paths is an explicit Panic: args[i].
+   History (all three repaired in /repo, the model follows the repaired code): range used a
+   plain i64 subtraction that could overflow (fb5b104: saturating_sub); len/head/tail/slice of a
+   string were byte based (264caa1: str::chars()); sort/sort_by handed a comparator that is not a
+   total order to slice::sort_by, which may panic (f7e0465: own stable merge sort). *)
 From Coq Require Import String Ascii List ZArith Bool.
 Require Import Blots.Num Blots.gen.Builtins Blots.Ast Blots.Value Blots.Outcome Blots.Access.
 Import ListNotations.
@@ -32,37 +32,8 @@ Definition is_function (v : value) : bool :=
 Definition num_of_nat (n : nat) : num := num_of_Z (Z.of_nat n).               (* usize as f64 *)
 Definition one : num := num_of_Z 1.
 
-(* ---------- byte strings: str::len, str::get(a..b) ---------- *)
+(* ---------- str::len (bytes) ---------- *)
 Definition str_len (s : string) : nat := String.length s.
-Fixpoint str_drop (n : nat) (s : string) : string :=
-  match n, s with
-  | O, _ => s
-  | S k, String _ r => str_drop k r
-  | S _, EmptyString => EmptyString
-  end.
-Fixpoint str_take (n : nat) (s : string) : string :=
-  match n, s with
-  | S k, String c r => String c (str_take k r)
-  | _, _ => EmptyString
-  end.
-(* str::is_char_boundary(i): 0 and len are boundaries, beyond len is not, otherwise the byte
-   at i must not be a continuation byte *)
-Definition is_char_boundary (s : string) (i : Z) : bool :=
-  if i =? 0 then true
-  else if i =? Z.of_nat (str_len s) then true
-  else if (i <? 0) || (Z.of_nat (str_len s) <? i) then false
-  else match str_drop (Z.to_nat i) s with
-       | String c _ => negb (is_cont c)
-       | EmptyString => false
-       end.
-(* str::get(a..b) *)
-Definition str_get (s : string) (a b : Z) : option string :=
-  if (a <=? b) && (b <=? Z.of_nat (str_len s)) && is_char_boundary s a && is_char_boundary s b
-  then Some (str_take (Z.to_nat (b - a)) (str_drop (Z.to_nat a) s))
-  else None.
-(* str::get(a..) *)
-Definition str_get_from (s : string) (a : Z) : option string := str_get s a (Z.of_nat (str_len s)).
-
 (* slice::get(a..b) on a Vec *)
 Definition slice_get {A} (l : list A) (a b : Z) : option (list A) :=
   if (a <=? b) && (b <=? Z.of_nat (length l))
@@ -79,9 +50,8 @@ Definition range_body (start end_ : num) : outcome value :=
   else
     let start_i64 := as_i64 start in
     let end_i64 := as_i64 end_ in
-    let length := end_i64 - start_i64 in
-    if (length <? I64_MIN) || (I64_MAX <? length) then Panic      (* i64 subtraction overflows *)
-    else if U32_MAX <? length then Err
+    let length := clamp I64_MIN I64_MAX (end_i64 - start_i64) in    (* end_i64.saturating_sub(start_i64) *)
+    if U32_MAX <? length then Err
     else Ok (VList (map (fun e => VNum (num_of_Z e)) (zrange start_i64 (Z.to_nat length)))).
 
 Definition bi_range (args : list value) : outcome value :=
@@ -91,12 +61,12 @@ Definition bi_range (args : list value) : outcome value :=
   | _ => Err
   end.
 
-(* ---------- len head tail slice ---------- *)
+(* ---------- len head tail slice: strings through str::chars(), like indexing and spreading ---------- *)
 Definition bi_len (args : list value) : outcome value :=
   do a0 <- arg args 0;
   match a0 with
   | VList l => Ok (VNum (num_of_nat (length l)))
-  | VStr s => Ok (VNum (num_of_nat (str_len s)))             (* String::len: bytes *)
+  | VStr s => Ok (VNum (num_of_nat (length (chars s))))          (* s.chars().count() *)
   | _ => Err
   end.
 
@@ -104,7 +74,8 @@ Definition bi_head (args : list value) : outcome value :=
   do a0 <- arg args 0;
   match a0 with
   | VList l => Ok (match l with x :: _ => x | [] => VNull end)
-  | VStr s => Ok (VStr (match str_get s 0 1 with Some t => t | None => EmptyString end))
+  | VStr s => Ok (VStr (match chars s with ch :: _ => ch | [] => EmptyString end))
+                                              (* chars().next().map(to_string).unwrap_or_default() *)
   | _ => Err
   end.
 
@@ -112,7 +83,7 @@ Definition bi_tail (args : list value) : outcome value :=
   do a0 <- arg args 0;
   match a0 with
   | VList l => Ok (VList (match slice_get l 1 (Z.of_nat (length l)) with Some t => t | None => [] end))
-  | VStr s => Ok (VStr (match str_get_from s 1 with Some t => t | None => EmptyString end))
+  | VStr s => Ok (VStr (String.concat EmptyString (tl (chars s))))   (* chars.next(); chars.as_str() *)
   | _ => Err
   end.
 
@@ -122,42 +93,11 @@ Definition bi_slice (args : list value) : outcome value :=
   do a0 <- arg args 0;
   match a0 with
   | VList l => match slice_get l start end_ with Some x => Ok (VList x) | None => Err end
-  | VStr s => match str_get s start end_ with Some t => Ok (VStr t) | None => Err end
-  | _ => Err
-  end.
-
-(* ---------- the character-based variants proposed in fixes/C14-string-chars.diff ----------
-   (len / head / tail / slice of a string through str::chars(), like indexing and spreading);
-   lists are handled as before.  Not the current code: used by the `_fixed` theorems and, in the
-   correspondence, as the only accepted alternative on inputs of the open finding class. *)
-Definition bi_len_chars (args : list value) : outcome value :=
-  do a0 <- arg args 0;
-  match a0 with
-  | VStr s => Ok (VNum (num_of_nat (length (chars s))))          (* s.chars().count() *)
-  | _ => bi_len args
-  end.
-Definition bi_head_chars (args : list value) : outcome value :=
-  do a0 <- arg args 0;
-  match a0 with
-  | VStr s => Ok (VStr (match chars s with ch :: _ => ch | [] => EmptyString end))
-  | _ => bi_head args
-  end.
-Definition bi_tail_chars (args : list value) : outcome value :=
-  do a0 <- arg args 0;
-  match a0 with
-  | VStr s => Ok (VStr (String.concat EmptyString (tl (chars s))))
-  | _ => bi_tail args
-  end.
-Definition bi_slice_chars (args : list value) : outcome value :=
-  do a1 <- arg args 1; do start_f <- as_number a1; let start := as_usize start_f in
-  do a2 <- arg args 2; do end_f <- as_number a2; let end_ := as_usize end_f in
-  do a0 <- arg args 0;
-  match a0 with
-  | VStr s => match slice_get (chars s) start end_ with
+  | VStr s => match slice_get (chars s) start end_ with       (* Vec<char>::get(start..end) *)
               | Some cs => Ok (VStr (String.concat EmptyString cs))
               | None => Err
               end
-  | _ => bi_slice args
+  | _ => Err
   end.
 
 (* ---------- concat ---------- *)
@@ -189,43 +129,43 @@ Definition cmp_or_eq (a b : value) : comparison :=
   match compare a b with Some c => c | None => Eq end.
 Definition is_Lt (c : comparison) : bool := match c with Lt => true | _ => false end.
 
-(* slice::sort_by of std 1.89 (core::slice::sort::stable::sort):
-     len < 2            nothing
-     len <= 20          insertion_sort_shift_left(v, 1, is_less): for every i, the element v[i]
-                        moves left while is_less(v[i], predecessor)
-     len > 20           driftsort — a stable sort whose result is determined only when the
-                        comparator is a total order on the input; otherwise the result is an
-                        unspecified permutation and the call MAY PANIC ("user-provided
-                        comparison function does not correctly implement a total order").
-   The model is the insertion sort (exact for len <= 20 whatever the comparator does; equal to
-   every stable sort when the comparator is a total preorder), and Unmodelled in the class
-   where std's behaviour is unspecified. *)
-Section InsertionSort.
+(* stable_sort_by (functions.rs, after impl BuiltInFunction): top-down merge sort
+     if len < 2 return; right = list.split_off(len / 2); sort(list); sort(right);
+     merge: while both non-empty: if cmp(right[j], left[i]) == Less take right[j] else left[i];
+     then the rest of left, the rest of right.
+   [fuel] only makes the recursion structural: length l suffices (each half is shorter). *)
+Section MergeSort.
   Context {A : Type}.
   Variable is_less : A -> A -> bool.
-  (* insert_tail: [prefix_rev] is the sorted prefix, last element first *)
-  Fixpoint insert_tail (x : A) (prefix_rev : list A) : list A :=
-    match prefix_rev with
-    | y :: rest => if is_less x y then y :: insert_tail x rest else x :: prefix_rev
-    | [] => [x]
+  Fixpoint merge (left right : list A) {struct left} : list A :=
+    let fix merge_right (right : list A) {struct right} : list A :=
+      match left, right with
+      | [], _ => right
+      | _, [] => left
+      | a :: left', b :: right' =>
+          if is_less b a then b :: merge_right right' else a :: merge left' right
+      end in
+    merge_right right.
+  Fixpoint merge_sort_fuel (fuel : nat) (l : list A) : list A :=
+    match fuel with
+    | O => l
+    | S f =>
+        if (length l <? 2)%nat then l
+        else let half := (length l / 2)%nat in
+             merge (merge_sort_fuel f (firstn half l)) (merge_sort_fuel f (skipn half l))
     end.
-  Definition insertion_sort (l : list A) : list A :=
-    rev (fold_left (fun prefix_rev x => insert_tail x prefix_rev) l []).
-End InsertionSort.
+  Definition merge_sort (l : list A) : list A := merge_sort_fuel (length l) l.
+End MergeSort.
 
 (* all pairs comparable (including every element with itself: no NaN): then Value::compare
    is a total preorder on the elements (proofs/Order.v) *)
 Definition mutually_comparable (l : list value) : bool :=
   forallb (fun a => forallb (fun b => match compare a b with Some _ => true | None => false end) l) l.
 
-Definition sort_determined (l : list value) : bool :=
-  (length l <=? 20)%nat || mutually_comparable l.
-
 Definition value_less (a b : value) : bool := is_Lt (cmp_or_eq a b).
 
 Definition bi_sort (args : list value) : outcome value :=
-  do a0 <- arg args 0; do l <- as_list a0;
-  if sort_determined l then Ok (VList (insertion_sort value_less l)) else Unmodelled.
+  do a0 <- arg args 0; do l <- as_list a0; Ok (VList (merge_sort value_less l)).
 
 Definition bi_reverse (args : list value) : outcome value :=
   do a0 <- arg args 0; do l <- as_list a0; Ok (VList (rev l)).
@@ -430,59 +370,45 @@ Section WithCall.
       end
     else (Ok Eq, st).
 
-  (* insert_tail with the comparator closure; is_less(tail, prev) = (cmp(tail, prev) == Less) *)
-  Fixpoint insert_tail_by (func x : value) (prefix_rev : list value) (st : St)
+  (* the merge loop with the comparator closure: cmp(right[j], left[i]) == Less *)
+  Fixpoint merge_by (func : value) (left right : list value) (st : St) {struct left}
     : outcome (list value) * St :=
-    match prefix_rev with
-    | [] => (Ok [x], st)
-    | y :: rest =>
-        let '(c, st1) := sort_by_cmp func x y st in
-        match c with
-        | Ok Lt => let '(res, st2) := insert_tail_by func x rest st1 in (omap (cons y) res, st2)
-        | Ok _ => (Ok (x :: prefix_rev), st1)
-        | Err => (Err, st1) | ErrDepth => (ErrDepth, st1)
-        | Panic => (Panic, st1) | Unmodelled => (Unmodelled, st1)
-        end
-    end.
-  Fixpoint insertion_sort_by (func : value) (l prefix_rev : list value) (st : St)
+    let fix merge_right (right : list value) (st : St) {struct right} : outcome (list value) * St :=
+      match left, right with
+      | [], _ => (Ok right, st)
+      | _, [] => (Ok left, st)
+      | a :: left', b :: right' =>
+          let '(c, st1) := sort_by_cmp func b a st in
+          match c with
+          | Ok Lt => let '(res, st2) := merge_right right' st1 in (omap (cons b) res, st2)
+          | Ok _ => let '(res, st2) := merge_by func left' right st1 in (omap (cons a) res, st2)
+          | Err => (Err, st1) | ErrDepth => (ErrDepth, st1)
+          | Panic => (Panic, st1) | Unmodelled => (Unmodelled, st1)
+          end
+      end in
+    merge_right right st.
+
+  Fixpoint merge_sort_by_fuel (fuel : nat) (func : value) (l : list value) (st : St)
     : outcome (list value) * St :=
-    match l with
-    | [] => (Ok (rev prefix_rev), st)
-    | x :: rest =>
-        let '(res, st1) := insert_tail_by func x prefix_rev st in
-        match res with
-        | Ok prefix_rev' => insertion_sort_by func rest prefix_rev' st1
-        | other => (other, st1)
-        end
+    match fuel with
+    | O => (Ok l, st)
+    | S f =>
+        if (length l <? 2)%nat then (Ok l, st)
+        else
+          let half := (length l / 2)%nat in
+          let '(sorted_left, st1) := merge_sort_by_fuel f func (firstn half l) st in
+          match sorted_left with
+          | Ok left' =>
+              let '(sorted_right, st2) := merge_sort_by_fuel f func (skipn half l) st1 in
+              match sorted_right with
+              | Ok right' => merge_by func left' right' st2
+              | other => (other, st2)
+              end
+          | other => (other, st1)
+          end
     end.
-
-  (* len > 20: the keys, one call per item (driftsort's actual number and order of calls is not
-     modelled: the final state is exact only for a callback that does not depend on it) *)
-  Fixpoint keys_of (func : value) (l : list value) (st : St) : outcome (list (value * value)) * St :=
-    match l with
-    | [] => (Ok [], st)
-    | x :: rest =>
-        let '(k, st1) := call func func [x] st in
-        match k with
-        | Ok kv => let '(more, st2) := keys_of func rest st1 in (omap (cons (kv, x)) more, st2)
-        | Panic => (Panic, st1)
-        | _ => (Unmodelled, st1)      (* an error is Ordering::Equal: not a total order in general *)
-        end
-    end.
-
   Definition sort_by_list (func : value) (l : list value) (st : St) : outcome (list value) * St :=
-    if (length l <=? 20)%nat then insertion_sort_by func l [] st
-    else if negb (is_function func) then (Ok l, st)          (* every comparison is Equal *)
-    else
-      let '(keyed, st1) := keys_of func l st in
-      match keyed with
-      | Ok kl =>
-          if mutually_comparable (map fst kl)
-          then (Ok (map snd (insertion_sort (fun a b => value_less (fst a) (fst b)) kl)), st1)
-          else (Unmodelled, st1)
-      | Err => (Err, st1) | ErrDepth => (ErrDepth, st1) | Panic => (Panic, st1)
-      | Unmodelled => (Unmodelled, st1)
-      end.
+    merge_sort_by_fuel (length l) func l st.
 
   Definition bi_sort_by (args : list value) (st : St) : outcome value * St :=
     match arg args 1 with
